@@ -411,8 +411,13 @@ func (g G) Body(level int, o SchemaOpts, isDep bool) m.BodyM {
 		}
 	}
 	// extensions
-	if g.Chance(35) {
-		b.Ext = &m.ExtM{Count: g.Chance(50), ForEach: g.Chance(50), Dynamic: g.Chance(40), SelfRefs: g.Chance(40)}
+	extPct, dynPct := 35, 40
+	if o.DepBoost {
+		// merged bodies propagate the dynamic-blocks extension into nested block schemas
+		extPct, dynPct = 60, 65
+	}
+	if g.Chance(extPct) {
+		b.Ext = &m.ExtM{Count: g.Chance(50), ForEach: g.Chance(50), Dynamic: g.Chance(dynPct), SelfRefs: g.Chance(40)}
 	}
 	if level > 0 || isDep {
 		if g.Chance(15) {
